@@ -137,6 +137,77 @@ def _identity_keyed(fn, table):
     return None
 
 
+def _key_coverage(fn, table):
+    """(parameters missing from the key, {parameter: projections used}) of
+    a look-aside cache whose key is a local tuple compared with / used to
+    subscript the module-level `table`; None when the shape is not
+    recognised"""
+    from .astutil import func_params
+    params = [p for p in func_params(fn) if p not in ("self", "cls")]
+    keyexprs = []
+    for n in walk_no_nested(fn, False):
+        if isinstance(n, ast.Compare) and len(n.ops) == 1 and isinstance(
+                n.ops[0], (ast.Eq, ast.NotEq)):
+            sides = [n.left, n.comparators[0]]
+            if any(isinstance(x, ast.Subscript) and isinstance(
+                    x.value, ast.Name) and x.value.id == table
+                    for x in sides):
+                keyexprs += [x for x in sides if not (isinstance(
+                    x, ast.Subscript) and isinstance(x.value, ast.Name)
+                    and x.value.id == table)]
+        if isinstance(n, ast.Compare) and len(n.ops) == 1 and isinstance(
+                n.ops[0], (ast.In, ast.NotIn)) and isinstance(
+                n.comparators[0], ast.Name) and \
+                n.comparators[0].id == table:
+            keyexprs.append(n.left)
+    if not keyexprs:
+        return None
+    # resolve a key held in a local
+    resolved = []
+    for k in keyexprs:
+        if isinstance(k, ast.Name) and k.id not in params:
+            defs = [st.value for st in walk_no_nested(fn, False)
+                    if isinstance(st, ast.Assign) and len(st.targets) == 1
+                    and norm(st.targets[0]) == k.id
+                    and not (isinstance(st.value, ast.Constant)
+                             and st.value.value is None)]
+            if not defs:
+                return None
+            resolved += defs
+        else:
+            resolved.append(k)
+    used = {n.id for st in walk_no_nested(fn, False)
+            for n in ast.walk(st) if isinstance(n, ast.Name)
+            and n.id in params} if params else set()
+    missing, partial = set(), {}
+    for p in sorted(used):
+        whole = False
+        proj = set()
+        seen = False
+        for k in resolved:
+            for n in ast.walk(k):
+                if isinstance(n, ast.Name) and n.id == p:
+                    seen = True
+                    par = None
+                    for q_ in ast.walk(k):
+                        for c_ in ast.iter_child_nodes(q_):
+                            if c_ is n:
+                                par = q_
+                    if isinstance(par, (ast.Subscript, ast.Attribute)) and \
+                            par.value is n and not (
+                                isinstance(par, ast.Attribute)
+                                and par.attr in ("tobytes", "tolist",
+                                                 "tostring")):
+                        proj.add(norm(par)[len(p):])
+                    else:
+                        whole = True
+        if not seen:
+            missing.add(p)
+        elif not whole:
+            partial[p] = "/".join(sorted(proj))
+    return missing, partial
+
+
 def find(repo):
     """[(kind, module, qualname, node, detail)] for every memoisation"""
     out = []
@@ -170,12 +241,24 @@ def find(repo):
                 elif isinstance(n, ast.Call) and isinstance(
                         n.func, ast.Attribute) and n.func.attr in MUT and \
                         isinstance(n.func.value, ast.Name) and \
-                        n.func.value.id in tables and \
-                        n.func.value.id not in prefilled:
+                        n.func.value.id in tables and (
+                            n.func.value.id not in prefilled
+                            or n.func.attr in ("update", "setdefault",
+                                               "clear", "pop")):
                     tgt = n.func.value.id
                 if tgt and not any(x[0] == "table" and x[2] == q
                                    and x[4] == tgt for x in out):
                     out.append(("table", m, q, f, tgt))
+            # module-level state re-bound at call time
+            gl = {nm for n in walk_no_nested(f, False)
+                  if isinstance(n, ast.Global) for nm in n.names}
+            for nm in sorted(gl):
+                if nm in REGISTRIES:
+                    continue
+                if any(isinstance(n, ast.Name) and n.id == nm and isinstance(
+                        n.ctx, (ast.Store, ast.Del))
+                        for n in walk_no_nested(f, False)):
+                    out.append(("global", m, q, f, nm))
             # closure state
             for inner in f.body:
                 if not isinstance(inner, ast.FunctionDef):
@@ -236,7 +319,8 @@ def rule(ctx, files):
         why = _impure(node, m, cg, fkey) if fkey else []
         shared = _shared_mutable(node) if kind == "decorator" else None
         what = {"decorator": f"memoised with {detail}",
-                "table": f"cached in the module-level `{detail}`"}[kind]
+                "table": f"cached in the module-level `{detail}`",
+                "global": f"state in the module-level `{detail}`"}[kind]
         if why:
             ctx.fail(node, f"{m.name}.{q} {what}",
                      f"{m.relpath}:{q} is {what}, but what it computes "
@@ -248,6 +332,14 @@ def rule(ctx, files):
                      f"{m.relpath}:{q} is {what} and hands the same mutable "
                      f"object ({shared}) to every caller: one caller's "
                      f"edits show up in the next caller's result")
+        elif kind == "global":
+            ctx.fail(node, f"{m.name}.{q} re-binds the module-level "
+                     f"`{detail}`",
+                     f"{m.relpath}:{q} keeps state between calls in the "
+                     f"module-level `{detail}` (re-bound through `global`): "
+                     "what a call returns or computes depends on the calls "
+                     "made before, and results handed out earlier share "
+                     "storage with later ones")
         elif kind == "table" and _identity_keyed(node, detail):
             ctx.fail(node, f"{m.name}.{q} {what}",
                      f"{m.relpath}:{q} remembers a result in the "
@@ -257,9 +349,29 @@ def rule(ctx, files):
                      "at a recycled address) gets the result computed for "
                      "the earlier content")
         elif kind == "table":
-            raise Undecided(f"{m.relpath}:{q} fills the module-level "
-                            f"`{detail}`; cannot tell whether the key "
-                            f"covers every input")
+            cov = _key_coverage(node, detail)
+            if cov is None:
+                raise Undecided(f"{m.relpath}:{q} fills the module-level "
+                                f"`{detail}`; cannot tell whether the key "
+                                f"covers every input")
+            missing, partial = cov
+            if missing or partial:
+                why_ = []
+                if partial:
+                    why_.append("only " + ", ".join(
+                        f"{v} of `{k}`" for k, v in sorted(partial.items())))
+                if missing:
+                    why_.append("nothing of " + ", ".join(
+                        f"`{k}`" for k in sorted(missing)))
+                ctx.fail(node, f"{m.name}.{q} {what}",
+                         f"{m.relpath}:{q} reuses a result remembered in "
+                         f"the module-level `{detail}` under a key that "
+                         f"holds {' and '.join(why_)}: two different "
+                         "arguments with the same key get the result "
+                         "computed for the first one")
+            else:
+                ctx.ok(node, f"{m.name}.{q} {what}: the key holds every "
+                       "argument by value")
         else:
             ctx.ok(node, f"{m.name}.{q} {what}: depends on its arguments "
                    "only")
